@@ -661,10 +661,14 @@ static void Disassemble_68(
         }
         pOp = MakeSymbolic(OpAddr, 2, pSymbolPrefix, NumBuf, sizeof(NumBuf));
         /* an address below $100 would be assembled in direct mode where the
-           instruction has one: keep extended addressing with the '>' prefix */
+           instruction has one: keep extended addressing with the '>' prefix.
+           The same holds for a symbolic operand: while the label is still a
+           forward reference the assembler may settle on the shorter direct
+           form, which moves the label itself (e.g. from $100 to $FF). */
         as_snprintf(
                 pInfo->SrcLine, sizeof(pInfo->SrcLine), "%s\t%s%s", pOpcode->Memo,
-                (!Data[0] && (Opcode >= 0x20) && (OpcodeList[Opcode - 0x20].Type == eDirect))
+                ((!Data[0] || (pOp != NumBuf)) && (Opcode >= 0x20)
+                 && (OpcodeList[Opcode - 0x20].Type == eDirect))
                         ? ">"
                         : "",
                 pOp);
